@@ -526,6 +526,12 @@ class Sym:
     def __hash__(self):
         return id(self)
 
+    def __copy__(self):
+        return self
+
+    def __deepcopy__(self, memo):
+        return self  # immutable
+
     # ---- logic (bitwise operators on Bool, as numpy.logical_* / & | ~ would use)
     def __and__(self, o):
         o = lift(o)
